@@ -83,8 +83,13 @@ func runPSHist(payload []*Sx) *Sx {
 		var r *Sx
 		switch op.Head() {
 		case "add":
-			ok := ps.Add(cedar.PolicyID(op.List[1].Str()), sharedPolicy(int(mustInt64(op.List[2].Atom))))
+			added := sharedPolicy(int(mustInt64(op.List[2].Atom)))
+			ok := ps.Add(cedar.PolicyID(op.List[1].Str()), added)
 			r = L(A("bool"), A(fmt.Sprint(ok)))
+			// a map hands back the very object that was stored
+			if ps.Get(cedar.PolicyID(op.List[1].Str())) != added {
+				r = L(A("get-after-add-is-another-object"))
+			}
 		case "iterrm":
 			// removing entries that the iteration has not reached yet: they must not be produced afterwards (Go map semantics).
 			// Done on a copy of the set, so the history itself is unchanged: the result is that of `all`.
@@ -132,6 +137,12 @@ func runPSHist(payload []*Sx) *Sx {
 				r = L(A("get"), A("none"))
 			} else {
 				r = L(A("get"), AI(handleOf(p)))
+			}
+			// lookup, iteration and the copy of the map all speak of the same stored objects
+			for k, v := range ps.All() {
+				if ps.Get(k) != v || ps.Map()[k] != v {
+					r = L(A("get-all-map-hand-out-different-objects"), AS(string(k)))
+				}
 			}
 		case "all":
 			m := cedar.PolicyMap{}
